@@ -1400,6 +1400,25 @@ PROPS["C12"]["trusted_base"] = PROPS["C12"]["trusted_base"] + [
     "code-level tie for baseLeaf.URLPath: translator/treecode.go (LeafURLCode); Code/LibRoute.lean: bytes.Buffer as its content, "
     "strings.Replacer as the model's replaceAll over the paired-up argument list (replaceAll itself is compared with the real "
     "strings.Replacer by the correspondence check on every run; keys are never empty here: each is `{`+name+`}`)"]
+PROPS["C06"]["code_modules"] = PROPS["C06"].get("code_modules", []) + ["Flamego.Props.C06Code"]
+PROPS["C06"]["technique"] = PROPS["C06"]["technique"] + "; code-level tie for the rendering: (*Segment).String and (*Route).String of definition.go (sync.Once around loops into a bytes.Buffer) are translated to Lean on every run and proved equal to the model's Segment.render / Route.render, memo filled or not"
+PROPS["C06"]["level_text"] = PROPS["C06"]["level_text"] + (
+    " CODE-LEVEL TIE for the rendering half: (*Segment).String and (*Route).String (internal/route/definition.go), translated on "
+    "every run (Gen/SegStringCode.lean, Gen/RouteStringCode.lean: sync.Once is its done flag, a bytes.Buffer its content, the tagless "
+    "switch on a parameter's value an if-else chain, the index-dependent \", \" separator as written), are proved in Props/C06Code "
+    "to return the model's Segment.render / Route.render for every AST — on a fresh segment (seg_string_fresh), and under the "
+    "invariant that a filled memo holds the rendering also on every later call (seg_string_memo, route_string_memo, "
+    "seg_string_stable, route_string_stable: memoisation cannot be observed); code_render_fixpoint carries Props/C06's "
+    "canonical-form theorem to the code: for every accepted input, String() of the parsed route is the input with normalised "
+    "spacing, parses to the same structure and is a fixpoint. The PARSER itself (participle's generated parser) is not translated: "
+    "its tie remains the regenerated grammar facts plus the correspondence. When the source leaves the translated subset or a proof "
+    "no longer checks, the evidence says so and the correspondence, run over four seeds instead of one, decides.")
+PROPS["C06"]["trusted_base"] = PROPS["C06"]["trusted_base"] + [
+    "code-level tie for String(): the Go→Lean translator of method bodies (translator/gocode.go, treecode.go: SegStringCode, "
+    "RouteStringCode), Code/GoSem.lean, Code/LibRoute.lean (bytes.Buffer as its content); in (*Route).String the call s.String() "
+    "stands for the VALUE Gen/SegStringCode's String returns — that it also fills the segment's own memo is not represented there "
+    "(Props/C06Code.seg_string_memo proves a segment's memo never changes what its String returns); sync.Once is a done flag "
+    "(its happens-before edge is C05's subject, checked by the race detector, not here)"]
 _ALL = ['C01', 'C02', 'C03', 'C04', 'C05', 'C06', 'C07', 'C08', 'C09', 'C10', 'C11', 'C12', 'C13', 'C14', 'C15', 'C16', 'C17', 'C18']
 NOT_APPLICABLE = [
     {"property_id": p, "reason": "check not built yet in this revision (work in progress; see DESIGN.md §11 for the plan)"}
